@@ -148,36 +148,65 @@ Theorem C17_question_complete : forall p index buffer d ls n t c,
 Proof. exact question_complete. Qed.
 Print Assumptions C17_question_complete.
 
-(* C17_records, PARTIAL: DecodeAnswers (the record part of ProcessDNS) stores exactly what the
-   reference learns from the answer section, merged first-wins into the previous entry, and reports
-   whether anything was added.  Proved for answer sections WITHOUT PTR records.
-   Missing (covered by the correspondence only: Coq reference as spec column + dnsmessage oracle):
-   PTR records (the library parses the dotted owner with net.ParseIP, the reference reads the labels);
-   the composition with the DNSTable update of ProcessDNS. *)
-Theorem C17_records_partial : forall p off buffer e lim an rrs endoff,
+(* C17_records: DecodeAnswers (the record part of ProcessDNS) stores exactly what the reference learns
+   from the answer section (A, AAAA, CNAME, PTR; other types ignored), merged first-wins into the
+   previous entry, reports whether anything was added and returns the end of the section.
+   [rrs_within]: every owner / RDATA name is reached through at most 254 pointers and no label of a
+   PTR owner contains a '.' octet (the library reads the dotted text of the owner; dnsmessage rejects
+   such names altogether: accepted leniency).  [lim] is the name-length limit of the reference, any
+   value up to 256 (RFC 1035: 255). *)
+Theorem C17_records : forall p off buffer e lim an rrs endoff,
   wf p -> bytes_ok (arr p) -> (12 <= len p)%nat -> (lim <= 256)%nat ->
   u16_at (view p) 6 = Some an ->
   ref_rrs lim (N.to_nat an) (view p) off = Some (rrs, endoff) ->
-  rrs_shallow lim (N.to_nat an) (view p) off ->
-  Forall (fun r => rr_type r <> 12) rrs ->
+  rrs_within lim (N.to_nat an) (view p) off ->
   Forall (fun r => learn lim (view p) r <> LBad) rrs ->
   exists u e', decodeAnswers p (Z.of_nat off) buffer e = (Ok (Z.of_nat endoff, u), e') /\
-               learn_all (cache_of_entry e) false (map (learn lim (view p)) rrs) = (cache_of_entry e', u).
+               learn_all (cache_of_entry e) false (map (learn lim (view p)) rrs) = (cache_of_entry e', u) /\
+               de_name e' = de_name e.
 Proof. exact answers_spec. Qed.
-Print Assumptions C17_records_partial.
+Print Assumptions C17_records.
+
+(* the library's reading of a PTR owner (TrimSuffix ".in-addr.arpa" + netip.ParseAddr + Is4 on the
+   dotted text) is the reference's reading of the labels d.c.b.a.in-addr.arpa (in text order) *)
+Theorem C17_ptr_owner : forall ls, Forall dotfree ls ->
+  parse_ptr_owner (dotted ls) = option_map (@rev N) (reverse_v4 ls).
+Proof. exact ptr_owner_spec. Qed.
+Print Assumptions C17_ptr_owner.
+
+(* C17_processdns_table: for every previous table and every message the reference reads as a
+   well-formed response, ProcessDNS succeeds, hands back what the reference hands back (the merged
+   entry when something was added, nothing otherwise) and leaves the reference table: the reference
+   learning merged insert-if-absent into the previous table. *)
+Theorem C17_processdns_table : forall t p lim rm,
+  wf p -> bytes_ok (arr p) -> (lim <= 256)%nat -> (18 <= len p)%nat ->
+  ref_message lim (view p) = Some rm -> msg_within lim (view p) ->
+  exists re, fst (processDNS t p) = Ok re /\
+             option_map named_of re = fst (ref_process (ctable_of t) rm) /\
+             ctable_of (snd (processDNS t p)) = snd (ref_process (ctable_of t) rm).
+Proof. exact processdns_table. Qed.
+Print Assumptions C17_processdns_table.
+
+Example C17_processdns_table_nonvacuous :
+  let p := of_bytes example_response in
+  wf p /\ bytes_okb (arr p) = true /\ (18 <= len p)%nat /\
+  (exists rm, ref_message NAME_LIMIT (view p) = Some rm /\ List.length (rm_learned rm) = 3%nat) /\
+  msg_within NAME_LIMIT (view p).
+Proof. exact processdns_table_nonvacuous. Qed.
+Print Assumptions C17_processdns_table_nonvacuous.
 
 Example C17_records_nonvacuous :
   let p := of_bytes example_response in
-  wf p /\ bytes_okb (arr p) = true /\ (12 <= len p)%nat /\ u16_at (view p) 6 = Some 2 /\
-  exists rrs, ref_rrs NAME_LIMIT 2 (view p) 33 = Some (rrs, 67%nat) /\
-    rrs_shallow NAME_LIMIT 2 (view p) 33 /\
-    Forall (fun r => rr_type r <> 12) rrs /\
+  wf p /\ bytes_okb (arr p) = true /\ (12 <= len p)%nat /\ u16_at (view p) 6 = Some 3 /\
+  exists rrs, ref_rrs NAME_LIMIT 3 (view p) 33 = Some (rrs, 101%nat) /\
+    rrs_within NAME_LIMIT 3 (view p) 33 /\
     Forall (fun r => learn NAME_LIMIT (view p) r <> LBad) rrs /\
     map (learn NAME_LIMIT (view p)) rrs =
       [LCNAME [119;119;119;46;101;120;97;109;112;108;101;46;99;111;109]
               [99;100;110;46;101;120;97;109;112;108;101;46;99;111;109] 60;
-       LA [99;100;110;46;101;120;97;109;112;108;101;46;99;111;109] [10;0;0;1] 60] /\
-    fst (decodeAnswers p 33 (mkSlice (repeat 0 64) 0) (new_entry [])) = Ok (67%Z, true).
+       LA [99;100;110;46;101;120;97;109;112;108;101;46;99;111;109] [10;0;0;1] 60;
+       LPTR [119;119;119;46;101;120;97;109;112;108;101;46;99;111;109] [1;2;3;4] 9] /\
+    fst (decodeAnswers p 33 (mkSlice (repeat 0 64) 0) (new_entry [])) = Ok (101%Z, true).
 Proof. exact answers_spec_nonvacuous. Qed.
 Print Assumptions C17_records_nonvacuous.
 
